@@ -122,7 +122,7 @@ func (r setRules) Less(v1, v2 interface{}) bool {
 	case Number:
 		v1f := v1v.AsBigFloat()
 		v2f := v2v.AsBigFloat()
-		return v1f.Cmp(v2f) < 0
+		return numberSetOrderCmp(v1f, v2f) < 0
 	default:
 		// No other types have a well-defined ordering, so we just produce a
 		// default consistent-but-undefined ordering then. This situation is
@@ -132,6 +132,26 @@ func (r setRules) Less(v1, v2 interface{}) bool {
 		v2h, _ := makeSetHashBytes(v2v)
 		return bytes.Compare(v1h, v2h) < 0
 	}
+}
+
+// numberSetOrderCmp compares two numbers for the purpose of ordering set
+// elements. The iteration order of a set must depend only on its members, and
+// numbers that Equals considers equal can have different binary values when
+// they were produced at different precisions, so whenever the raw binary
+// comparison could disagree with equality we instead compare the exact
+// decimal values of the representations that rawNumberEqual compares.
+func numberSetOrderCmp(a, b *big.Float) int {
+	if a.Prec() == b.Prec() || a.IsInf() || b.IsInf() || (a.IsInt() && b.IsInt()) {
+		// The shortest decimal representation is monotonic for numbers of
+		// a single precision, and whole numbers are compared exactly.
+		return a.Cmp(b)
+	}
+	ar, aOK := new(big.Rat).SetString(numberSetHashString(a))
+	br, bOK := new(big.Rat).SetString(numberSetHashString(b))
+	if !aOK || !bOK {
+		return a.Cmp(b) // (should not be possible for finite numbers)
+	}
+	return ar.Cmp(br)
 }
 
 // numberSetHashString returns the string used to represent a number in
